@@ -85,15 +85,15 @@ class Expression:
         found = []
 
         def check(node):
-            if (
-                node.is_reference
-                or node.is_call
-                or getattr(node, 'skip_ignored', False)
-            ):
+            if node.is_reference or node.is_call or node._skips_ignored():
                 found.append(node)
 
         visit(self, check)
         return bool(found)
+
+    def _skips_ignored(self):
+        # Skipping the ignored tokens after a literal is a rule call too.
+        return getattr(self, 'skip_ignored', False)
 
     def freevars(self):
         counter = SymbolCounter()
